@@ -298,6 +298,73 @@ PROPS = {
         "stubs": ["<AnyLoader as Loader>::find_file, Path::is_file, File::open, SourceFile::read, lock_loading: nondeterministic stubs (every Ok/Err outcome)", "tracing macros: level test false"],
         "assumptions": ["rustc nightly MIR text = the code that is compiled", "mirsym's MIR subset semantics (/verif/mirsym/sym.py)", "z3 5.1 and cvc5 1.0.3 (every query on both)"],
     },
+    "C38": {
+        "engines": ["E2 mirsym+z3/cvc5"],
+        "e2": True,
+        "functions": [
+            ("rsass::compile_scss", "lib.rs", r"^pub fn compile_scss\("),
+            ("rsass::compile_scss_path", "lib.rs", r"^pub fn compile_scss_path\("),
+            ("rsass::compile_value", "lib.rs", r"^pub fn compile_value\("),
+            ("rsass::input::Context::with_format", "input/context.rs", r"pub fn with_format"),
+            ("rsass::input::Context::transform", "input/context.rs", r"pub fn transform"),
+            ("rsass::input::FsLoader::for_path", "input/fsloader.rs", r"pub fn for_path"),
+            ("rsass::css::Property::write", "css/rule.rs", r"pub\(crate\) fn write\(&self, buf: &mut CssBuf\) \{"),
+        ],
+        "bounds": {"quick": "every path of the seven functions with each callee an uninterpreted event and each fallible callee (for_path, open, read, lock, parse, handle_parsed, "
+                            "into_buffer, transform, parse_value_data, evaluate) forking into Ok and Err; bytes, path, format, value: arbitrary objects tracked by identity"},
+        "outside": "what parse / handle_parsed / into_buffer / Value::format compute (the pipeline itself); relative loads from the file's directory (the loader's path list); "
+                   "CargoContext; custom properties (CustomProperty::write); the newline-to-space rewrite of a declaration's value is accepted as part of 'printed in a declaration'",
+        "stubs": ["every callee of the seven functions is an event returning a fresh object (fallible ones: Ok or Err)", "<Option<ScopeRef> as Clone>::clone returns a tracked clone"],
+        "assumptions": ["rustc nightly MIR text = the code that is compiled", "mirsym's MIR subset semantics (/verif/mirsym/sym.py)", "z3 5.1 and cvc5 1.0.3 (path feasibility)",
+                        "a violated structural obligation is reported as VIOLATION only when one of the native relation probes (compile_scss vs transform vs compile_scss_path; "
+                        "compile_value vs declaration text; 4 formats) disagrees, otherwise as inconclusive"],
+    },
+    "C34": {
+        "engines": ["E2 mirsym+z3/cvc5"],
+        "e2": True,
+        "functions": [
+            ("sass::functions::string::expose", "sass/functions/string.rs", r"^pub fn expose"),
+            ("sass::functions::list::expose", "sass/functions/list.rs", r"^pub fn expose"),
+            ("sass::functions::map::expose", "sass/functions/map.rs", r"^pub fn expose"),
+            ("sass::functions::math::expose (+ css::global, distance::global)", "sass/functions/math.rs", r"^pub fn expose"),
+            ("sass::functions::meta::expose", "sass/functions/meta.rs", r"^pub fn expose"),
+            ("sass::functions::selector::expose", "sass/functions/selector.rs", r"^pub fn expose"),
+            ("sass::functions::color::{rgb,hsl,hwb,other}::expose", "sass/functions/color/other.rs", r"^pub fn expose"),
+            ("sass::functions::FUNCTIONS initialiser", "sass/functions/mod.rs", r"^static FUNCTIONS"),
+            ("sass::functions::meta call closure, its argument unpacking, get_function()", "sass/functions/meta.rs", r"def_va!\(f, call\(function, args\)"),
+            ("sass::Value::do_evaluate (Call arm)", "sass/value.rs", r"Self::Call\(name, args, pos\) =>"),
+        ],
+        "bounds": {"quick": "all rows of the literal (global name, local name) tables (loops unrolled to the table length, at most 200 rows), every later definition made by the "
+                            "same functions and by the helpers they call; 65 documented pairs"},
+        "outside": "abs / min / max / round / grayscale / invert (their global forms are CSS-aware special forms by design); how a call site picks the table (Value::Call in do_evaluate); "
+                   "FormalArgs binding itself (C18); meta.call with a string instead of a function reference (deprecated), get-function with $module or $css; the lazy `if`",
+        "stubs": ["Name::from_static(literal) is the literal", "Scope::get_lfunction(scope, name) returns an object tagged with (scope, name)", "BTreeMap::insert / Functions::builtin_fn are recorded"],
+        "assumptions": ["rustc nightly MIR text = the code that is compiled", "mirsym's MIR subset semantics (/verif/mirsym/sym.py)", "z3 5.1 and cvc5 1.0.3 (path feasibility)",
+                        "the documented pairs (kernels2.DOC_PAIRS) were transcribed from the Sass module documentation",
+                        "a violated obligation is reported as VIOLATION only when one of the 249 native relation probes (global vs module form; positional vs named vs mixed; meta.call) disagrees"],
+    },
+    "C22": {
+        "engines": ["E2 mirsym+z3/cvc5"],
+        "e2": True,
+        "functions": [
+            ("css::selectors::Opt::collect_pos / collect_neg", "css/selectors/opt.rs", r"pub\(crate\) fn collect_pos"),
+            ("css::selectors::Pseudo::no_placeholder", "css/selectors/pseudo.rs", r"pub\(crate\) fn no_placeholder"),
+            ("css::selectors::CompoundSelector::no_placeholder", "css/selectors/compound.rs", r"pub fn no_placeholder"),
+            ("css::selectors::Selector::no_placeholder", "css/selectors/selector.rs", r"pub\(crate\) fn no_placeholder"),
+            ("css::selectors::SelectorSet::no_placeholder", "css/selectors/selectorset.rs", r"pub\(crate\) fn no_placeholder"),
+            ("css::Rule::write", "css/rule.rs", r"pub\(crate\) fn write\(&self, buf: &mut CssBuf\) -> io::Result"),
+        ],
+        "bounds": {"quick": "collect_pos / collect_neg over EVERY sequence of up to 3 elements of every kind (Some / Any / None); one level of each of the four recursive no_placeholder "
+                            "functions with the recursive calls returning each of Opt::Some / Any / None (an inductive step over the selector tree: any depth, any width); "
+                            "Rule::write for every filter outcome and an empty / non-empty body"},
+        "outside": "sequences longer than 3 in collect_pos / collect_neg (same loop body); how selectors are parsed, nested, extended and printed (write_to); the text of the selectors kept "
+                   "(they are kept as objects, by identity); no_leading_combinator; @extend (not implemented in rsass); an empty compound after a combinator is printed as nothing (`b :not(%p)` gives `b `, observed, not claimed)",
+        "stubs": ["the recursive no_placeholder calls and collect_pos / collect_neg at their call sites return every Opt value", "Pseudo::name_in(<literal>) is a symbolic boolean per literal (a name is at most one of them)",
+                  "Vec::is_empty / CompoundSelector::is_empty / Selector::is_local_empty / Option::is_some are symbolic booleans", "CssBuf methods are events"],
+        "assumptions": ["rustc nightly MIR text = the code that is compiled", "mirsym's MIR subset semantics (/verif/mirsym/sym.py)", "z3 5.1 and cvc5 1.0.3 (path feasibility)",
+                        "three-valued reading of Opt: Some(x) = what x matches, Any = everything, None = nothing; a selector list is a union, a compound an intersection, :not() a complement",
+                        "a violated obligation is reported as VIOLATION only when one of the 35 native stylesheet probes (exact output) disagrees"],
+    },
     "C18": {
         "engines": ["E2 mirsym+z3/cvc5"],
         "e2": True,
